@@ -48,6 +48,10 @@ func runC05(c *Collector, r *Rng, thorough bool) {
 		{"DSignMsg", "d8628440a043666f6f81f6"}, {"DSignMsg", "d8628440a043666f6f828340a04101f7"}, {"DSignMsg", "d8628440a043666f6f82f68340a04101"},
 		// fixed (F10): a tagged item is not a countersignature list
 		{"DUnprot", "a107d862818340a04101"}, {"DUnprot", "a107c6818340a04101"}, {"DUnprot", "a10bd862818340a04101"},
+		// a bignum (tag 2 / 3) is neither int nor uint: alg, content type, typ in any layer
+		{"DProt", "45a101c34106"}, {"DProt", "45a103c2412a"}, {"DProt", "45a110c2412a"}, {"DSign1", "d28445a101c34106a0f64100"},
+		{"DSign1U", "8445a103c2412aa0f64100"}, {"DSignature", "8345a101c34106a04100"}, {"DSignMsg", "d8628440a0f6818345a101c34106a04100"},
+		{"DSign1", "d28440a1078345a101c34106a04101f64100"}, {"DSign1", "d28440a10b818345a110c2412aa04101f64100"},
 		// content type / typ text rules
 		{"DProt", "43a11060"}, {"DUnprot", "a11060"}, {"DProt", "43a10360"}, {"DSign1", "d28443a11060a0f64100"},
 	} {
